@@ -51,7 +51,7 @@ check(
     "C01",
     "exhaustive product of integrand templates x element settings x meshes x measures x compute_form_data option sets, preprocessed vs original integrand values per (integral type, subdomain)",
     "Every form of the product (about 45 integrand templates incl. index reuse, derivatives, conditionals, geometry, compound algebra, Gateaux derivatives) x 12 element settings (Lagrange, vector, tensor, RT, N1curl, L2-Piola, Regge, HHJ, covariant-contravariant, symmetric, two mixed) x 5 meshes (incl. immersed) x 6 measures (dx, dx(1), multi-subdomain sums, ds, dS) is run through the real compute_form_data under the option sets (quick: all 32 combinations of the five lowering flags with the other flags cycling; thorough: all 1024); for every (integral type, subdomain id) of the result the summed model value of the preprocessed integrands on reference-frame data equals the measure scaling factor times the summed value of the original integrands that apply there; dropped subdomains are detected. Exceptions are accepted outcomes.",
-    "Trusted: reference evaluator Sem (push-forwards, vertex geometry, jets), FEniCS reference-cell tables, model of the measure scaling (|det J| w, facet pseudo-determinant w). Affine simplex cells only; no MeshSequence / coefficients_to_split / quadrilaterals. H1 data continuous across facets, all else independent per side.",
+    "Trusted: reference evaluator Sem (push-forwards, vertex geometry, jets), FEniCS reference-cell tables, model of the measure scaling (|det J| w, facet pseudo-determinant w). Affine simplex cells only; no MeshSequence / intersect measures / coefficients_to_split / quadrilaterals; integrands containing CoordinateDerivative (shape derivatives) have no model value and are skipped (seed C01-c, DESIGN 9.7). H1 data continuous across facets, all else independent per side.",
     "DESIGN.md 3 C01",
 )
 check(
@@ -65,7 +65,7 @@ check(
     "C03",
     "explicit-state BFS over expression recipes with every spatial derivative operator nested 2-3 times; real expand_derivatives vs jet derivative of the model value + structural check",
     "Every expression f of the grammar (coefficients incl. Piola-mapped, constants, x, X, J, K, detJ, CellVolume; all math functions, powers, indexing, tensor algebra, conditionals; depth 2) with grad, nabla_grad, div, nabla_div, curl, .dx(k), .dx(i) applied and nested (2x quick, 3x thorough) on triangle and tetrahedron: the real expand_derivatives result contains derivatives of terminals only and its value equals K^T d/dX applied to the power series of Sem(f).",
-    "Trusted: jets and Sem. Immersed manifolds excluded (grad(x) = I convention is ambiguous there). Jet order 3/4 >= nesting depth.",
+    "Trusted: jets and Sem. Affine simplices only: non-affine cells (quadrilaterals, hexahedra, higher-order meshes), where J and K vary, are outside the model (seed C03-c, DESIGN 9.7). Immersed manifolds excluded (grad(x) = I convention is ambiguous there). Jet order 3/4 >= nesting depth.",
     "DESIGN.md 3 C03",
 )
 check(
@@ -100,7 +100,7 @@ check(
     "C17",
     "explicit-state BFS over interior-facet integrand recipes with restrictions at every position (incl. missing and doubled); real apply_restrictions (2 modes) vs two-cell model value + structural invariant + must-raise oracle",
     "Every recipe of the grammar (H1, DG, vector and Piola coefficients, an argument, x, n, FacetArea, CellVolume, constants; arithmetic, math functions, indexing, tensor algebra, grad, conditionals; '+', '-', jump, avg applied to terminals and to sub-expressions at depth <= 3) is run through apply_restrictions with and without default restrictions: results must keep the value on two-cell environments (shared facet, several local numberings of the neighbour, continuous H1 data, n- = -n+), have every side-dependent terminal restricted exactly once directly above its terminal/derivative chain; doubly restricted inputs, and with defaults inputs leaving a discontinuous quantity unrestricted, must raise.",
-    "Trusted: Sem's two-sided semantics and the driver's table of which terminal kinds require / default / ignore restriction (from the statement and the module).",
+    "Trusted: Sem's two-sided semantics and the driver's table of which terminal kinds require / default / ignore restriction (from the statement and the module). apply_restrictions is driven directly; the decision inside FormData whether to call it (mixed-dimensional integrals with intersect measures) is not covered (seed C17-c, DESIGN 9.7).",
     "DESIGN.md 3 C17",
 )
 check(
